@@ -137,6 +137,7 @@ class Engine(TorchDispatchMode):
         T.reset_state()
         T.DIV_POLICY[0] = self.opts.get("div_policy", "assume")
         T.DIV_HOOK[0] = self._div_side_condition
+        T.FINITE_HOOK[0] = self._provably_false
 
     # ---------------------------------------------------------------- context
     def __enter__(self):
@@ -147,6 +148,7 @@ class Engine(TorchDispatchMode):
     def __exit__(self, *a):
         self._fn_mode.__exit__(*a)
         T.DIV_HOOK[0] = None
+        T.FINITE_HOOK[0] = None
         return super().__exit__(*a)
 
     # ---------------------------------------------------------------- storage table
@@ -271,6 +273,10 @@ class Engine(TorchDispatchMode):
         self._add(c)
         if note:
             self.assumptions.append(note)
+
+    def _provably_false(self, flag):
+        r, _ = self.check(flag)
+        return r == "unsat"
 
     def _div_side_condition(self, b):
         c = b != 0
@@ -435,10 +441,15 @@ class Engine(TorchDispatchMode):
 
     def out(self, func, args, kwargs, arr):
         """Allocate the result tensor (shape/dtype from PyTorch's own meta kernel)."""
-        mo = self.meta_out(func, args, kwargs)
+        arr = arr if isinstance(arr, np.ndarray) else obj(arr)
+        try:
+            mo = self.meta_out(func, args, kwargs)
+        except NotImplementedError:
+            # data-dependent output shape (boolean-mask indexing): no meta kernel; the handler's shape is authoritative
+            first = next(a for a in args if isinstance(a, torch.Tensor))
+            return self.lift(arr, first.dtype)
         if isinstance(mo, (tuple, list)):
             raise Unsupported(f"multi-output {func}")
-        arr = arr if isinstance(arr, np.ndarray) else obj(arr)
         if tuple(mo.shape) != tuple(arr.shape):
             raise Unsupported(f"handler shape {arr.shape} != meta shape {tuple(mo.shape)} for {func}")
         return self.lift(arr, mo.dtype)
